@@ -145,7 +145,8 @@ fn check_case(cx: &Ctx, key: &str, tup: &[usize]) -> CaseOut {
                 return out;
             }
             let te = s.t_events[0][0];
-            if (te - cx.ev_time.unwrap()).abs() > 2e-11 {
+            // (Brent's absolute 2e-12 and a few units in the last place of the abscissa, which dominate at a far origin)
+            if (te - cx.ev_time.unwrap()).abs() > 2e-11 + 8.0 * f64::EPSILON * te.abs() {
                 viol!("event-location", format!("terminal event at {:e}, root at {:e}", te, cx.ev_time.unwrap()));
             }
             stop_at = Some(te);
@@ -219,7 +220,12 @@ fn check_case(cx: &Ctx, key: &str, tup: &[usize]) -> CaseOut {
             // (both are evaluations of a step interpolant at the same abscissa: the same step's, bit for bit, or - for
             // a time within the matching slack of a step end - the neighbouring step's, which agrees to rounding there;
             // the end state of the step is NOT the value at a time 1e-12 away from it)
-            if d > 256.0 * f64::EPSILON * scale {
+            // plus the rounding of the abscissa itself: (t - xold) / h carries an error of an ulp of t, i.e. ulp(t) |y'| in the
+            // value - negligible near the origin, dominant at a time origin of 1e5 and beyond
+            let mut dy = vec![0.0; y.len()];
+            (cx.prob.f)(*t, y, &mut dy);
+            let slope = dy.iter().fold(0.0f64, |m, v| m.max(v.abs()));
+            if d > 256.0 * f64::EPSILON * scale + 4.0 * f64::EPSILON * t.abs() * slope {
                 viol!("value", format!("value at t={:e} differs from the plain run's interpolant by {:e}", t, d));
             }
             if y.iter().zip(&ys).all(|(a, b)| a.to_bits() == b.to_bits()) {
@@ -292,7 +298,22 @@ pub fn run_check(replay: Option<Value>) -> i32 {
                 } else {
                     None
                 };
-                std::iter::once((si, sc, false)).chain(again).chain(tenth)
+                // (and at time origins where an ulp exceeds the handler's absolute matching slack: steps of a tenth / a
+                // fifth of an interval of length one that add up to xend only up to rounding)
+                let far: Vec<(usize, Scene, bool)> = if si == 0 {
+                    [(6usize, 3e5), (7, 1e6), (8, 1e5)]
+                        .iter()
+                        .map(|&(code, o)| {
+                            let p0 = crate::problems::base(crate::problems::Base::Decay(-0.05));
+                            let p = if backward { crate::problems::reflect(&p0) } else { p0 };
+                            let o = if backward { -o } else { o };
+                            (code, Scene { name: format!("{} (pinned steps on an interval of length 1 at {:e})", p.name, o), prob: p, x0: o, xend: if backward { o - 1.0 } else { o + 1.0 } }, true)
+                        })
+                        .collect()
+                } else {
+                    vec![]
+                };
+                std::iter::once((si, sc, false)).chain(again).chain(tenth).chain(far)
             }) {
                 let mut cfg = scene_cfg(*m, &sc, 1e-5);
                 if *m == Method::RK4 {
@@ -300,7 +321,11 @@ pub fn run_check(replay: Option<Value>) -> i32 {
                     cfg.first_step = Some((sc.xend - sc.x0) / 73.3);
                 }
                 if pinned {
-                    let parts = if si == 5 { 10.0 } else { 10.005 };
+                    let parts = match si {
+                        5 | 6 | 7 => 10.0,
+                        8 => 5.0,
+                        _ => 10.005,
+                    };
                     cfg.first_step = Some((sc.xend - sc.x0) / parts);
                     cfg.max_step = Some((sc.xend - sc.x0).abs() / parts);
                 }
